@@ -29,7 +29,9 @@ var strPool = []string{"", "a", "foo.bar", "x y", "<html>&amp;\"q\"", "hÃ©llo wÃ
 	"foo.*", ">", "a.b.>", "UPPER", "null", "0", "-", "â€¨", "emojiðŸ˜€", "long-" + "0123456789abcdefghijklmnopqrstuvwxyz0123456789abcdefghijklmnopqrstuvwxyz",
 	// unusual but legal content
 	"a=b", "50%", "%s%d%v", "--dash--", "dots...", ".", "\x00", "nul\x00inside", "e\u0301 combining", "\u200bzero-width", "\u2028line-sep", "trailing ", " leading",
-	"\r\n", "{\"json\":1}", "[1,2]", "\\u0041", "</script>", "\x7f", strings.Repeat("very-long-", 300)}
+	"\r\n", "{\"json\":1}", "[1,2]", "\\u0041", "</script>", "\x7f", strings.Repeat("very-long-", 300),
+	// a backslash followed by what looks like one of the escapes the JSON encoder writes for & < >; the characters themselves
+	"Q\\u0026A", "\\u003c", "x\\u003ey", "\\\\u0026", "a&b<c>d", "\\u0026\\u003c\\u003e&<>", "\\/", "\\\""}
 
 var intPool = []int64{0, 1, -1, 2, 100, 101, 255, 256, 1 << 31, -(1 << 31), 1<<53 - 1, 1 << 53, 1<<53 + 1, -(1<<53 + 1),
 	1<<62 + 12345, 9223372036854775807, -9223372036854775808, 1700000000, 42,
